@@ -773,6 +773,7 @@ def fp(name, sort=None) -> "SymFP":
 
 
 numbers.Integral.register(SymInt)
+numbers.Integral.register(SymBool)  # bool is an int subclass in Python
 numbers.Real.register(SymReal)
 numbers.Real.register(SymFP)
 
